@@ -76,7 +76,7 @@ class ModRedfieldRelaxationTensor(RelaxationTensor):
             #with eigenbasis_of(HH):
             if True:
                 if self._has_cutoff_time:
-                    cft = self.cut_off_time
+                    cft = self.cutoff_time
                 else:
                     cft = None
                 
